@@ -623,17 +623,23 @@ upipe_h265f_stream_parse_short_term_ref_pic_set(struct ubuf_block_stream *s,
             int k = num_negative_pics[ref_idx] + j;
             int d_poc = delta_poc[ref_idx][k] + delta_rps;
             if (d_poc < 0 && use_delta_flag[k]) {
+                if (i >= max_dec_pic_buffering_1)
+                    return false;
                 delta_poc_s0[i] = d_poc;
                 used_by_curr_pic_s0[i++] = used_by_curr_pic_flag[k];
             }
         }
         if (delta_rps < 0 && use_delta_flag[num_delta_pocs]) {
+            if (i >= max_dec_pic_buffering_1)
+                return false;
             delta_poc_s0[i] = delta_rps;
             used_by_curr_pic_s0[i++] = used_by_curr_pic_flag[num_delta_pocs];
         }
         for (int j = 0; j < num_negative_pics[ref_idx]; j++) {
             int d_poc = delta_poc[ref_idx][j] + delta_rps;
             if (d_poc < 0 && use_delta_flag[j]) {
+                if (i >= max_dec_pic_buffering_1)
+                    return false;
                 delta_poc_s0[i] = d_poc;
                 used_by_curr_pic_s0[i++] = used_by_curr_pic_flag[j];
             }
@@ -647,11 +653,15 @@ upipe_h265f_stream_parse_short_term_ref_pic_set(struct ubuf_block_stream *s,
         for (int j = num_negative_pics[ref_idx] - 1; j >= 0; j--) {
             int d_poc = delta_poc[ref_idx][j] + delta_rps;
             if (d_poc > 0 && use_delta_flag[j]) {
+                if (num_negative_pics[idx] + i >= max_dec_pic_buffering_1)
+                    return false;
                 delta_poc_s1[i] = d_poc;
                 used_by_curr_pic_s1[i++] = used_by_curr_pic_flag[j];
             }
         }
         if (delta_rps > 0 && use_delta_flag[num_delta_pocs]) {
+            if (num_negative_pics[idx] + i >= max_dec_pic_buffering_1)
+                return false;
             delta_poc_s1[i] = delta_rps;
             used_by_curr_pic_s1[i++] = used_by_curr_pic_flag[num_delta_pocs];
         }
@@ -659,6 +669,8 @@ upipe_h265f_stream_parse_short_term_ref_pic_set(struct ubuf_block_stream *s,
             int k = num_negative_pics[ref_idx] + j;
             int d_poc = delta_poc[ref_idx][k] + delta_rps;
             if (d_poc > 0 && use_delta_flag[k]) {
+                if (num_negative_pics[idx] + i >= max_dec_pic_buffering_1)
+                    return false;
                 delta_poc_s1[i] = d_poc;
                 used_by_curr_pic_s1[i++] = used_by_curr_pic_flag[k];
             }
@@ -670,8 +682,8 @@ upipe_h265f_stream_parse_short_term_ref_pic_set(struct ubuf_block_stream *s,
         if (num_negative_pics[idx] > max_dec_pic_buffering_1)
             return false;
         num_positive_pics[idx] = upipe_h26xf_stream_ue(s);
-        if (num_positive_pics[idx] + num_negative_pics[idx] >
-            max_dec_pic_buffering_1)
+        if (num_positive_pics[idx] >
+            max_dec_pic_buffering_1 - num_negative_pics[idx])
             return false;
         for (int i = 0, d_poc = 0; i < num_negative_pics[idx]; i++) {
             d_poc -= upipe_h26xf_stream_ue(s) + 1;
@@ -965,6 +977,14 @@ static bool upipe_h265f_activate_sps(struct upipe *upipe, uint32_t sps_id)
         max_dec_pic_buffering_1 = upipe_h26xf_stream_ue(s);
         upipe_h26xf_stream_ue(s); /* max_num_reorder_pics */
         upipe_h26xf_stream_ue(s); /* max_latency_increase */
+    }
+
+    if (max_dec_pic_buffering_1 > 15) {
+        upipe_err_va(upipe, "invalid SPS (max_dec_pic_buffering %"PRIu32")",
+                     max_dec_pic_buffering_1);
+        ubuf_block_stream_clean(s);
+        uref_free(flow_def);
+        return false;
     }
 
     upipe_h26xf_stream_ue(s); /* min_luma_coding_block_size */
